@@ -1,1 +1,305 @@
-//! harness package hcompat
+//! harness package hcompat (C12): a scripted inner compio stream and counting wakers.
+//!
+//! The inner stream answers every call with the next outcome of a schedule that the replay loads
+//! before each step:
+//!   k > 0  Ok(min(k, what was offered))   short transfer
+//!   0      Ok(0)                           read: end of file, write: zero-length write
+//!   -1     Err(other)
+//!   -2     Poll::Pending; the waker is kept, `complete` wakes it, the next poll of the same future
+//!          takes the next outcome
+//! Bytes delivered by `read` are numbered 1, 2, 3, ... (`byte_val`), so the order and multiplicity of
+//! everything that comes out of an adapter can be judged without knowing the schedule.
+use std::{
+    cell::RefCell,
+    collections::VecDeque,
+    future::poll_fn,
+    io,
+    rc::Rc,
+    sync::{
+        Arc,
+        atomic::{AtomicUsize, Ordering},
+    },
+    task::{Context, Poll, Wake, Waker},
+};
+
+use compio_buf::{BufResult, IoBuf, IoBufMut, SetLenExt};
+use compio_io::{AsyncRead, AsyncWrite};
+
+pub const EOF: i64 = 0;
+pub const ERR: i64 = -1;
+pub const PEND: i64 = -2;
+
+/// value of the i-th byte (1-based) of a numbered stream
+pub fn byte_val(i: usize) -> u8 {
+    ((i - 1) % 250 + 1) as u8
+}
+
+#[derive(Clone, Copy, PartialEq, Eq, Debug)]
+pub enum Dir {
+    Read,
+    Write,
+}
+
+#[derive(Default)]
+pub struct DirState {
+    pub pending: bool,
+    pub ready: bool,
+    pub waker: Option<Waker>,
+}
+
+#[derive(Default)]
+pub struct Script {
+    pub outcomes: VecDeque<i64>,
+    /// outcomes taken during the current step
+    pub consumed: Vec<i64>,
+    /// room offered at each data call of the current step (read: writable bytes, write: bytes offered)
+    pub spaces: Vec<usize>,
+    /// end-of-case mode: reads answer EOF, writes take everything, shutdown succeeds
+    pub drain: bool,
+    /// blocking-style replays: every other data call first answers Pending once (not part of the schedule)
+    pub inject_pend: bool,
+    inject_ctr: usize,
+    pub delivered: Vec<u8>,
+    pub received: Vec<u8>,
+    pub rd: DirState,
+    pub wr: DirState,
+    /// calls that found the schedule empty (answered with Err)
+    pub underflow: usize,
+    pub read_calls: usize,
+    pub write_calls: usize,
+    pub flush_calls: usize,
+    pub shutdown_calls: usize,
+    pub shutdown_ok: usize,
+    pub eof_given: bool,
+    pub err_given: usize,
+    pub zero_given: usize,
+    /// negative control of the oracle: misreport one byte (one phantom byte "delivered", the first
+    /// received byte not recorded)
+    pub sabotage: bool,
+    /// polls of inner futures in total (budget against endless loops in the code under test)
+    pub polls: usize,
+}
+
+pub const POLL_BUDGET: usize = 100_000;
+
+impl Script {
+    fn st(&mut self, dir: Dir) -> &mut DirState {
+        match dir {
+            Dir::Read => &mut self.rd,
+            Dir::Write => &mut self.wr,
+        }
+    }
+
+    /// One poll of an inner operation. `data`: a read/write (as opposed to shutdown).
+    fn poll_op(&mut self, dir: Dir, cx: &mut Context<'_>, data: bool) -> Poll<i64> {
+        self.polls += 1;
+        if self.polls > POLL_BUDGET {
+            panic!("harness: inner poll budget exceeded (endless loop in the adapter?)");
+        }
+        let drain = self.drain;
+        let inject = self.inject_pend && data && !drain;
+        if self.st(dir).pending {
+            if !self.st(dir).ready {
+                self.st(dir).waker = Some(cx.waker().clone());
+                return Poll::Pending;
+            }
+            let st = self.st(dir);
+            st.pending = false;
+            st.ready = false;
+            st.waker = None;
+        } else if inject {
+            self.inject_ctr += 1;
+            if self.inject_ctr % 2 == 1 {
+                let st = self.st(dir);
+                st.pending = true;
+                st.ready = false;
+                st.waker = Some(cx.waker().clone());
+                return Poll::Pending;
+            }
+        }
+        let o = if drain {
+            match (dir, data) {
+                (Dir::Read, _) => EOF,
+                (Dir::Write, true) => i64::MAX,
+                (Dir::Write, false) => 1,
+            }
+        } else {
+            match self.outcomes.pop_front() {
+                Some(o) => {
+                    self.consumed.push(o);
+                    o
+                }
+                None => {
+                    self.underflow += 1;
+                    ERR
+                }
+            }
+        };
+        if o == PEND {
+            let st = self.st(dir);
+            st.pending = true;
+            st.ready = false;
+            st.waker = Some(cx.waker().clone());
+            return Poll::Pending;
+        }
+        Poll::Ready(o)
+    }
+
+    pub fn is_pending(&self, dir: Dir) -> bool {
+        let st = match dir {
+            Dir::Read => &self.rd,
+            Dir::Write => &self.wr,
+        };
+        st.pending && !st.ready
+    }
+
+    pub fn holds_waker(&self, dir: Dir) -> bool {
+        let st = match dir {
+            Dir::Read => &self.rd,
+            Dir::Write => &self.wr,
+        };
+        st.pending && !st.ready && st.waker.is_some()
+    }
+
+    pub fn begin_step(&mut self, os: &[i64]) {
+        self.outcomes = os.iter().copied().collect();
+        self.consumed.clear();
+        self.spaces.clear();
+    }
+}
+
+pub type Shared = Rc<RefCell<Script>>;
+
+/// The pending inner operation becomes ready: wake whoever polled it last. Returns whether an
+/// operation was pending (and had a waker).
+pub fn complete(sh: &Shared, dir: Dir) -> (bool, bool) {
+    let (was_pending, w) = {
+        let mut s = sh.borrow_mut();
+        let st = s.st(dir);
+        if st.pending && !st.ready {
+            st.ready = true;
+            (true, st.waker.take())
+        } else {
+            (false, None)
+        }
+    };
+    let had = w.is_some();
+    if let Some(w) = w {
+        w.wake();
+    }
+    (was_pending, had)
+}
+
+#[derive(Clone)]
+pub struct ScriptStream(pub Shared);
+
+impl ScriptStream {
+    pub fn new() -> (Self, Shared) {
+        let sh: Shared = Rc::new(RefCell::new(Script::default()));
+        sh.borrow_mut().sabotage = std::env::var("VERIF_C12_SABOTAGE").is_ok();
+        (Self(sh.clone()), sh)
+    }
+}
+
+impl AsyncRead for ScriptStream {
+    async fn read<B: IoBufMut>(&mut self, mut buf: B) -> BufResult<usize, B> {
+        let room = buf.as_uninit().len();
+        {
+            let mut s = self.0.borrow_mut();
+            s.read_calls += 1;
+            s.spaces.push(room);
+        }
+        let sh = self.0.clone();
+        let o = poll_fn(|cx| sh.borrow_mut().poll_op(Dir::Read, cx, true)).await;
+        if o == ERR {
+            self.0.borrow_mut().err_given += 1;
+            return BufResult(Err(io::Error::other("scripted error")), buf);
+        }
+        let d = (o.max(0) as u64).min(room as u64) as usize;
+        let mut s = self.0.borrow_mut();
+        if o == EOF {
+            s.eof_given = true;
+        }
+        if s.sabotage && d > 0 && s.delivered.is_empty() {
+            s.delivered.push(byte_val(1));
+        }
+        {
+            let un = buf.as_uninit();
+            for slot in un.iter_mut().take(d) {
+                let v = byte_val(s.delivered.len() + 1);
+                slot.write(v);
+                s.delivered.push(v);
+            }
+        }
+        // as compio's own readers do (slice_to_buf): record the bytes written at the front
+        unsafe { buf.advance_to(d) };
+        BufResult(Ok(d), buf)
+    }
+}
+
+impl AsyncWrite for ScriptStream {
+    async fn write<T: IoBuf>(&mut self, buf: T) -> BufResult<usize, T> {
+        let len = buf.as_init().len();
+        {
+            let mut s = self.0.borrow_mut();
+            s.write_calls += 1;
+            s.spaces.push(len);
+        }
+        let sh = self.0.clone();
+        let o = poll_fn(|cx| sh.borrow_mut().poll_op(Dir::Write, cx, true)).await;
+        if o == ERR {
+            self.0.borrow_mut().err_given += 1;
+            return BufResult(Err(io::Error::other("scripted error")), buf);
+        }
+        let d = (o.max(0) as u64).min(len as u64) as usize;
+        let mut s = self.0.borrow_mut();
+        if d == 0 {
+            s.zero_given += 1;
+        }
+        let skip = if s.sabotage && d > 0 && s.received.is_empty() && s.write_calls == 1 { 1 } else { 0 };
+        s.received.extend_from_slice(&buf.as_init()[skip..d]);
+        BufResult(Ok(d), buf)
+    }
+
+    async fn flush(&mut self) -> io::Result<()> {
+        self.0.borrow_mut().flush_calls += 1;
+        Ok(())
+    }
+
+    async fn shutdown(&mut self) -> io::Result<()> {
+        self.0.borrow_mut().shutdown_calls += 1;
+        let sh = self.0.clone();
+        let o = poll_fn(|cx| sh.borrow_mut().poll_op(Dir::Write, cx, false)).await;
+        if o == ERR {
+            self.0.borrow_mut().err_given += 1;
+            return Err(io::Error::other("scripted error"));
+        }
+        self.0.borrow_mut().shutdown_ok += 1;
+        Ok(())
+    }
+}
+
+/// A waker that counts how often it was woken.
+#[derive(Default)]
+pub struct CountWaker(pub AtomicUsize);
+
+impl CountWaker {
+    pub fn count(&self) -> usize {
+        self.0.load(Ordering::SeqCst)
+    }
+}
+
+impl Wake for CountWaker {
+    fn wake(self: Arc<Self>) {
+        self.0.fetch_add(1, Ordering::SeqCst);
+    }
+
+    fn wake_by_ref(self: &Arc<Self>) {
+        self.0.fetch_add(1, Ordering::SeqCst);
+    }
+}
+
+pub fn count_waker() -> (Arc<CountWaker>, Waker) {
+    let c = Arc::new(CountWaker::default());
+    (c.clone(), Waker::from(c))
+}
